@@ -36,7 +36,7 @@ inline Sim *&cur_sim() { static Sim *p = nullptr; return p; }
 struct Scenario {
   Sim s; std::vector<Action> actions; std::string prop;
   std::vector<std::pair<int, std::string>> inject_log; std::map<int, int64_t> last_cookieless; std::vector<std::pair<int64_t, int>> src_changes;
-  bool has_faults = false, has_reconfig = false, has_cancel = false, has_inject = false;
+  bool has_faults = false, has_reconfig = false, has_cancel = false, has_inject = false; bool has_other_faults = false;   // other = anything but a hard error on a read
   size_t nlines = 0;
 
   void parse(const std::string &text) {
@@ -61,7 +61,7 @@ struct Scenario {
       else if (op == "weights") { auto m = kvs(t, 1); std::fill(s.w.weights.begin(), s.w.weights.end(), 0); for (auto &kv : m) { int o = outcome_from_name(kv.first); if (o >= 0) s.w.weights[(size_t)o] = std::max(0, atoi(kv.second.c_str())); } }
       else if (op == "rule" && t.size() >= 5) { Rule r; r.server = t[1] == "*" ? -1 : atoi(t[1].c_str()); r.name = ref::lower(t[2]); r.nth = t[3] == "*" ? -1 : atol(t[3].c_str()); int o = outcome_from_name(t[4]); if (o >= 0) { r.outcome = o; s.w.rules.push_back(r); } }
       else if (op == "cookie" && t.size() >= 3) { size_t i = (size_t)atoi(t[1].c_str()) % 8; if (s.w.servers.size() <= i) s.w.servers.resize(i + 1); s.w.servers[i].cookie_mode = t[2]; }
-      else if (op == "fail" && t.size() >= 4) { s.w.faults[t[1]][(size_t)std::max(1, atoi(t[2].c_str()))] = errno_from(t[3]); has_faults = true; }
+      else if (op == "fail" && t.size() >= 4) { s.w.faults[t[1]][(size_t)std::max(1, atoi(t[2].c_str()))] = errno_from(t[3]); has_faults = true; int e = errno_from(t[3]); if (!(t[1] == "arecvfrom" && (e == ECONNREFUSED || e == ECONNRESET || e == ENETUNREACH || e == EHOSTUNREACH))) has_other_faults = true; }
       else if (op == "chop" && t.size() > 1) { std::istringstream cs(t[1]); std::string x; while (std::getline(cs, x, ',')) s.w.chop.push_back((size_t)std::max(1, atoi(x.c_str()))); }
       else if (op == "partial" && t.size() > 1) { std::istringstream cs(t[1]); std::string x; while (std::getline(cs, x, ',')) s.w.partial.push_back((size_t)std::max(0, atoi(x.c_str()))); }
       else { Action a; a.op = op; a.a.assign(t.begin() + 1, t.end()); actions.push_back(a);
@@ -353,6 +353,12 @@ struct Scenario {
     for (auto &kv : S.reqs) { const Req &q = kv.second; if (q.calls != 1 || q.parent >= 0) continue;
       std::string ctx = "request " + std::to_string(q.id) + " (" + q.kind + " " + q.name.substr(0, 60) + ")";
       if (q.kind == "getaddrinfo" || q.kind == "gethostbyname") {
+        if (q.status != ARES_SUCCESS && q.status != ARES_ECANCELLED && q.status != ARES_EDESTRUCTION && !has_faults && !has_cancel && !has_inject && !has_reconfig && S.opt.tries == 1 && w.servers.size() == 1 && q.timeouts == 0 && w.chop.empty() && w.partial.empty()) {
+          // one server, one try, no faults: every sub-query got exactly one reply.  If one of them was an answer carrying addresses of a requested family, those addresses are the result
+          bool killed = false; for (auto &t : w.txs) if (t.outcome == O_GARBAGE || t.outcome == O_RESET || t.outcome == O_EOFMID || t.outcome == O_TC || t.outcome == O_DELAY || t.outcome == O_SILENCE || t.outcome == O_BADCOOKIE || t.outcome == O_FORMERR || t.outcome == O_FORMERR_OPT) killed = true;
+          if (!killed) for (size_t i = q.tx_at_start; i < q.tx_at_end && i < w.txs.size(); i++) { const Tx &t = w.txs[i]; if (t.req != q.id || !t.decodable || !t.serial) continue; auto it = bys.find(t.serial); if (it == bys.end() || !it->second->genuine || it->second->tc || (it->second->rcode & 0xfff) != 0) continue; bool has = false; for (auto &ad : it->second->addrs) if (q.family == AF_UNSPEC || ad.first == q.family) has = true;
+            if (has && (t.outcome == O_ANSWER || t.outcome == O_DUP)) { fail(r, "C13.accepted-addresses-dropped", ctx + " ended with " + ares_strerror(q.status) + " although the answer to " + t.qname_lower + " type " + std::to_string(t.qtype) + " carried addresses of the requested family"); break; } }
+        }
         if (q.status != ARES_SUCCESS) continue;
         std::multiset<std::string> got; for (auto &a : q.addrs) got.insert(std::to_string(a.family) + ":" + vf::hex(a.addr));
         if (!q.serials.empty()) {
@@ -360,6 +366,7 @@ struct Scenario {
           std::multiset<std::string> want; std::map<std::string, uint32_t> want_ttl;
           int fam_seen4 = 0, fam_seen6 = 0;
           for (uint32_t ser : q.serials) { auto it = bys.find(ser); if (it == bys.end() || !it->second->genuine) continue; const Prov &p = *it->second; for (size_t i = 0; i < p.addrs.size(); i++) { int f = p.addrs[i].first; if (q.family == AF_INET && f != AF_INET) continue; if (q.family == AF_INET6 && f != AF_INET6) continue; want.insert(std::to_string(f) + ":" + vf::hex(p.addrs[i].second)); want_ttl[std::to_string(f) + ":" + vf::hex(p.addrs[i].second)] = p.addr_ttls[i]; if (f == AF_INET) fam_seen4++; else fam_seen6++; } }
+          { std::set<std::string> qn; for (uint32_t ser : q.serials) { auto it = bys.find(ser); if (it != bys.end() && it->second->genuine && !it->second->addrs.empty()) qn.insert(it->second->qname_lower); } if (qn.size() > 1) { std::string l; for (auto &x : qn) l += x + " "; fail(r, "C13.addresses-from-several-candidates", ctx + ": the result mixes addresses of answers for different candidate names: " + l); } }
           for (auto &a : q.addrs) { if (q.family == AF_INET && a.family != AF_INET) fail(r, "C13.wrong-family-returned", ctx + " asked for IPv4 and got an address of family " + std::to_string(a.family)); if (q.family == AF_INET6 && a.family != AF_INET6) fail(r, "C13.wrong-family-returned", ctx + " asked for IPv6 and got an address of family " + std::to_string(a.family)); }
           if (q.kind == "gethostbyname") {
             // a hostent holds one family: exactly the answers of one of the families present
@@ -410,7 +417,7 @@ struct Scenario {
   // ---- C09: server selection follows the failover policy.  Reference model fed by the public server-state callback stream.
   void monitor_c09(RunResult &r) {
     Sim &S = s; World &w = S.w;
-    if (has_faults || has_cancel || has_inject || S.server_sets.empty()) return;
+    if ((has_faults && has_other_faults) || has_cancel || has_inject || S.server_sets.empty()) return;   // hard read errors are connection-level failures the policy speaks about; other socket faults are not modelled
     if (S.opt.flags & ARES_FLAG_PRIMARY) return;
     // "each fresh attempt goes to a server with the fewest consecutive failures": with servers configured there always is such a server, however many failures it has
     for (auto &kv : S.reqs) { const Req &q = kv.second; if (q.calls != 1 || q.status != ARES_ENOSERVER) continue;
@@ -419,6 +426,9 @@ struct Scenario {
     // merge the observable streams into one order
     struct Ev { uint64_t ev; int kind; size_t idx; };   // 0 server-set, 1 server-state, 2 transmission
     std::vector<Ev> evs; for (size_t i = 0; i < S.server_sets.size(); i++) evs.push_back({S.server_sets[i].ev, 0, i}); for (size_t i = 0; i < S.server_events.size(); i++) evs.push_back({S.server_events[i].ev, 1, i}); for (size_t i = 0; i < w.txs.size(); i++) evs.push_back({w.txs[i].ev, 2, i});
+    // 3 = a hard error reported by a read on a UDP socket: a failure of that server, which must be counted before the queries that were on the connection are sent again
+    for (size_t i = 0; i < w.calls.size(); i++) { const SockCall &cl = w.calls[i]; if (cl.call == "arecvfrom" && cl.rv < 0 && (cl.err == ECONNREFUSED || cl.err == ECONNRESET || cl.err == ENETUNREACH || cl.err == EHOSTUNREACH)) evs.push_back({cl.ev, 3, i}); }
+    std::map<std::string, uint64_t> awaiting_demotion;   // server -> event of the read error not yet followed by a failure notification
     std::sort(evs.begin(), evs.end(), [](const Ev &a, const Ev &b) { return a.ev < b.ev; });
     std::vector<std::string> cfg; std::map<std::string, size_t> fails; std::map<std::string, int64_t> failed_at;
     std::map<int, uint16_t> main_qid; std::map<std::string, const Tx *> last_tx_of_qid; std::map<std::string, size_t> outstanding_probe;
@@ -427,7 +437,8 @@ struct Scenario {
     auto addr_of = [&](const Tx &t) -> std::string { for (auto &k : w.socks) if (k.fd == t.fd) return k.remote.str(); return ""; };
     for (auto &e : evs) {
       if (e.kind == 0) { auto &nl = S.server_sets[e.idx].list; std::map<std::string, size_t> nf; for (auto &x : nl) nf[x] = fails.count(x) ? fails[x] : 0; fails = nf; cfg = nl; continue; }
-      if (e.kind == 1) { const ServerEv &se = S.server_events[e.idx]; if (!fails.count(se.server)) { fail(r, "C09.state-event-for-unconfigured-server", se.server); continue; } if (se.success) fails[se.server] = 0; else { fails[se.server]++; failed_at[se.server] = se.t; } continue; }
+      if (e.kind == 3) { const SockCall &cl = w.calls[e.idx]; std::string srv; bool udp = false; for (auto &k : w.socks) if (k.fd == cl.fd) { srv = k.remote.str(); udp = !k.tcp; } if (udp && fails.count(srv)) { awaiting_demotion[srv] = cl.ev; r.counters["c09.read_errors_on_udp_sockets"]++; } continue; }
+      if (e.kind == 1) { const ServerEv &se = S.server_events[e.idx]; if (!se.success) awaiting_demotion.erase(se.server); if (!fails.count(se.server)) { fail(r, "C09.state-event-for-unconfigured-server", se.server); continue; } if (se.success) fails[se.server] = 0; else { fails[se.server]++; failed_at[se.server] = se.t; } continue; }
       const Tx &t = w.txs[e.idx]; if (!t.decodable || t.req < 0) continue;
       std::string dest = addr_of(t); if (dest.empty()) continue;
       auto rq = S.reqs.find(t.req); if (rq == S.reqs.end()) continue; const Req &q = rq->second;
@@ -452,6 +463,7 @@ struct Scenario {
       size_t mn = (size_t)-1; for (auto &x : cfg) mn = std::min(mn, fails[x]);
       std::string ctx = "request " + std::to_string(t.req) + " transmission #" + std::to_string(t.seq) + " went to " + dest + " (consecutive failures " + std::to_string(fails[dest]) + "); servers:"; for (auto &x : cfg) ctx += " " + x + "=" + std::to_string(fails[x]);
       checked++; bool any_fail = false; for (auto &x : cfg) if (fails[x]) any_fail = true; if (any_fail && cfg.size() >= 2) after_failure++;
+      if (awaiting_demotion.count(dest)) { bool other = false; for (auto &x : cfg) if (x != dest && fails[x] <= fails[dest]) other = true; if (other) { fail(r, "C09.resent-to-the-failed-server-before-it-was-demoted", ctx + "; a read on that server's socket had just failed hard and the failure had not been counted yet"); continue; } }
       if (fails[dest] != mn) { fail(r, "C09.not-a-least-failed-server", ctx); continue; }
       if (!S.opt.rotate) { std::string first; for (auto &x : cfg) if (fails[x] == mn) { first = x; break; } if (dest != first) fail(r, "C09.not-first-in-configuration-order", ctx + "; first least-failed is " + first); }
     }
@@ -534,6 +546,25 @@ struct Scenario {
         // a client-cookie rotation (source change, 1 day) also restarts learning
         bool rotated = false; for (auto &sc : src_changes) if (sc.second == (int)sv && sc.first >= proven_at && sc.first <= a.second) rotated = true; if (a.second - proven_at >= 86400LL * 1000000) rotated = true; if (rotated) continue;
         fail(r, "C17.reply-without-valid-cookie-accepted", "server " + std::to_string(sv) + " proved cookie support at t=" + std::to_string(proven_at / 1000000) + "s; a reply without a valid cookie was accepted at t=" + std::to_string(a.second / 1000000) + "s (request " + std::to_string(t.req) + ") only " + std::to_string(first_missing < 0 ? 0 : (a.second - first_missing) / 1000000) + "s after the first such reply");
+      }
+    }
+    // "... are ignored UNTIL the regression period passes": in the simplest shape (one transmission per request, no adversary, no delayed or duplicated replies) the instant
+    // the period starts is known exactly - the first cookie-less reply after the last valid one - and a request sent more than 120 s later must be answered by its (cookie-less) reply
+    if (!has_inject && S.opt.tries == 1 && nserv == 1) {
+      bool simple = true; for (auto &t : w.txs) if (t.outcome == O_DELAY || t.outcome == O_DUP || t.outcome == O_TC || t.outcome == O_BADCOOKIE || t.outcome == O_SILENCE || t.tcp || !t.decodable) simple = false;
+      for (auto &kv : S.reqs) { const Req &q = kv.second; if (q.kind != "query" && q.kind != "send" && q.kind != "lquery" && q.kind != "lsend") simple = false; }
+      std::map<int, int> ntx; for (auto &t : w.txs) ntx[t.req]++; for (auto &kv : ntx) if (kv.second != 1) simple = false;
+      if (simple) {
+        // replies in delivery order
+        std::vector<const Prov *> seq; for (auto &p : w.provs) if (p.genuine && p.server == 0 && dev.count(p.serial) && p.tx != (size_t)-1) seq.push_back(&p); std::sort(seq.begin(), seq.end(), [&](const Prov *a, const Prov *b) { return dev[a->serial] < dev[b->serial]; });
+        bool supported = false; int64_t t0 = -1;
+        for (const Prov *p : seq) { const Tx &t = w.txs[p->tx]; bool valid = p->carried_server_cookie && p->cookie_valid;
+          if (valid && t.has_cookie) { supported = true; t0 = -1; continue; }
+          if (!t.has_cookie) continue;                      // cookies not in play for this exchange
+          if (!supported) continue;
+          if (t0 < 0) { t0 = delivered_at[p->serial]; continue; }
+          // a later cookie-less reply: was its query sent after the period had passed?
+          if (t.t - t0 >= 121LL * 1000000) { auto rq = S.reqs.find(t.req); if (rq != S.reqs.end() && rq->second.calls == 1 && std::find(rq->second.serials.begin(), rq->second.serials.end(), p->serial) == rq->second.serials.end() && (p->outcome == O_ANSWER)) { fail(r, "C17.cookie-less-reply-still-ignored-after-the-regression-period", "request " + std::to_string(t.req) + " was sent " + std::to_string((t.t - t0) / 1000000) + "s after the server's first cookie-less reply (t=" + std::to_string(t0) + "us); its cookie-less answer was still dropped (status " + ares_strerror(rq->second.status) + ")"); } r.counters["c17.regression_period_expiries_checked"]++; supported = false; t0 = -1; } }
       }
     }
     r.counters["c17.server_cookie_echo_checks"] += proofs; r.counters["c17.timer_crossings"] += timers;
